@@ -47,7 +47,7 @@ ASSUMPTIONS = [
 REQUIRED = ["op_get_subtree", "op_node_subtree", "op_to_subtree", "op_cut_enter", "op_cut_leave",
             "op_cut_type", "op_cut_order", "op_cut_tip", "op_neurites", "op_dendrites",
             "neurites_consumed_with_extractions_in_between", "op_to_sub_tree_older_name",
-            "operations_under_custom_column_names",
+            "operations_under_custom_column_names", "trees_with_64_bit_labels",
             "transform_instance_reused", "numpy_scalar_node_ids", "removals_as_iterator_or_set",
             "mappings_checked", "mapping_container_reused", "transform_reused_after_aborted_call",
             "zero_length_tip_branches_at_threshold_zero", "trees_derived_by_the_library_from_a_used_tree", "tip_exact_threshold_cases", "exhaustive_subsets",
@@ -579,6 +579,9 @@ def _workload(ctx):
                              extras=int(rng.integers(0, 3)))
         if k % 5 == 0:
             rc["geom"] = "axis"
+        if k % 4 == 1:
+            rc["big_extra"] = True
+            ctx.count("trees_with_64_bit_labels")
         spec = G.spec_from_recipe(rc)
         n = len(spec["pid"])
         ch = topo.children_lists(spec["pid"])
